@@ -85,6 +85,17 @@ PROPS = {
                       {"name": "trees", "variants": list(range(0, 18)), "quick": 120000, "thorough": 1200000, "fuzz_runs": 160000}],
         "assumptions": [SC, MAP_ASSUME, "extract_min/extract_max are judged by the statement's relaxed contract: 'erase k, k present' transitions plus a conservative counting side condition for 'a smaller (larger) key / any key was present throughout the call'. Skip-list tower heights are forced by a case-driven level generator. Variants 18-19 (Bronson relaxed_insert) are excluded, see known_findings.json; a Bronson extract_min/max livelock shows up as inconclusive cases (liveness is not judged)."],
     },
+    "C16": {
+        "harnesses": [{"name": "lockhash", "quick": 160000, "thorough": 1600000, "fuzz_runs": 200000},
+                      {"name": "lockhash_boost", "quick": 160000, "thorough": 1600000, "fuzz_runs": 200000}],
+        "assumptions": [SC, MAP_ASSUME, "std::mutex / std::recursive_mutex traffic is scheduled through the pthread interposers. Tiny tables: Cuckoo initial size 1-4 with probe-set size 2-4 and colliding injective hash tuples; Striped resizing policies single_bucket_size_threshold<0..2> and rational load factors (StripedSet clamps the initial capacity to 16, so resizes are forced by the policy and a shifted hash). A probe walks the bucket tables at quiescent points (no key twice, element in the bucket its hash selects, probe-set bounds, size() = linked elements)."],
+    },
+    "C17": {
+        "harnesses": [{"name": "rehash", "variants": list(range(0, 9)) + list(range(13, 27)), "quick": 120000, "thorough": 1200000, "fuzz_runs": 0},
+                      {"name": "rehash_boost", "quick": 100000, "thorough": 1000000, "fuzz_runs": 0}],
+        "assumptions": ["Single thread, no scheduler: sequences of up to 120/200 operations over keys 0..63 with generated degenerate hash families (constant, k & m, k >> s, k << s, k * odd, identity); oracle: exact std::map differential after every step, full content compare every 4 steps, bucket-table probe. For Cuckoo tuples at least one member is injective (all-constant tuples make CuckooSet resize for ever: outside every real caller's domain).",
+                        "The four Cuckoo variants with low-entropy tuples (rehash variants 9-12) are excluded from the generated campaign: they reproduce the open finding cuckoo-resize-drops-element within a few thousand cases; its reproducers are replayed and reported as KNOWN-FINDING."],
+    },
     "C18": {
         "harnesses": [{"name": "lists_hp", "quick": 120000, "thorough": 1200000, "fuzz_runs": 0},
                       {"name": "hashsets_b", "quick": 80000, "thorough": 800000, "fuzz_runs": 0},
@@ -107,7 +118,9 @@ PROPS = {
                       {"name": "seq_hashsets_b", "quick": 40000, "thorough": 400000, "fuzz_runs": 0},
                       {"name": "seq_hashsets_c", "quick": 30000, "thorough": 300000, "fuzz_runs": 0},
                       {"name": "seq_skiplist", "quick": 30000, "thorough": 300000, "fuzz_runs": 0},
-                      {"name": "seq_trees", "variants": list(range(0, 18)), "quick": 30000, "thorough": 300000, "fuzz_runs": 0}],
+                      {"name": "seq_trees", "variants": list(range(0, 18)), "quick": 30000, "thorough": 300000, "fuzz_runs": 0},
+                      {"name": "seq_lockhash", "quick": 30000, "thorough": 300000, "fuzz_runs": 0},
+                      {"name": "seq_lockhash_boost", "quick": 30000, "thorough": 300000, "fuzz_runs": 0}],
         "libs": BOOST,
         "assumptions": ["Single thread, no scheduler. Oracle: step-wise differential against std::map / std::deque / std::multiset reference models (return values, observed tags, functor-call contract, update triple, size()/empty()/clear(), pop/extract order, full content compare every 4 steps, disposer count per intrusive item)."],
     },
@@ -176,6 +189,10 @@ _RCU_TEXT = ("Bounded exploration of generated reader/writer programs (nested re
              "schedules for all four flavours incl. the reclamation thread and simulated signal delivery; held on every case explored.")
 
 MANIFEST_TEXT = {
+    "C16": {"text": "Bounded exploration of generated client programs x schedules over CuckooSet/Map and intrusive CuckooSet (striping and refinable policies, list and vector<2|4> probe sets, stored hashes) and StripedSet/Map and intrusive StripedSet (striping, refinable; 26 bucket adapters from std, boost::container and boost::intrusive) with tiny tables so that resizes interleave with the operations: linearizability with insertion tags, functor contract, bucket-table probe at quiescent points. Held on every case explored.",
+            "note": _SCHED_NOTE, "technique": "schedule-controlled property-based testing (rapidcheck + libFuzzer) with a linearizability oracle"},
+    "C17": {"text": "Generated single-thread insert/erase/update sequences over 64 keys with generated degenerate hash families and minimal capacities/thresholds/load factors over Cuckoo, Striped (std and boost adapters), SplitList and Feldman containers, compared step by step with std::map plus a bucket-table probe. Held on every sequence explored (one open finding for low-entropy Cuckoo tuples, see known_findings.json).",
+            "note": "Trusted base: the std::map reference model, the bucket-table probes, ASan/UBSan, rapidcheck.", "technique": "model-based (stateful) property-based testing with rapidcheck: differential against std::map"},
     "C15": {"text": "Bounded exploration of generated client programs x schedules over SkipListSet/Map (HP, DHP, four RCU flavours, nogc; forced tower heights), EllenBinTreeSet/Map (HP, DHP, RCU) and BronsonAVLTreeMap (value + pointer variants, injecting and pool monitors): linearizability with insertion tags, relaxed extract_min/max contract, functor contract, quiescent structure checks. Held on every case explored.",
             "note": _SCHED_NOTE, "technique": "schedule-controlled property-based testing (rapidcheck + libFuzzer) with a linearizability oracle"},
     "C18": {"text": "Quiescent-point invariants checked after generated concurrent histories (barrier points inside the run and the end of each case) and after generated sequential histories for lists, split lists, skip lists, EllenBinTree and BronsonAVLTreeMap, through iterators, the containers' own consistency checks and derived probe classes that walk the raw structure. Held at every quiescent point explored.",
